@@ -138,6 +138,11 @@ impl C01 {
                 if matches!(r.end, crate::prelude::RefEnd::Discard(_)) {
                     return None;
                 }
+                // programs that run into a recorded exception-machinery defect leave the
+                // interpreter in a corrupt state: not a GC question
+                if !crate::props::diffprop::trigger_suffix(&r.events).is_empty() {
+                    return None;
+                }
                 crate::astutil::fix_lambda_names(&prog);
                 let (main, mods) = crate::pretty::render_program(&prog, &[]);
                 Some((main, mods, String::new(), sched))
